@@ -93,7 +93,17 @@ def eval_one(name):
         return (name, meta["property"], "patch does not apply", "")
     results, caught_by = {}, []
     env = dict(os.environ, VERIF_REPO=tree, VERIF_OUT=os.path.join(work, "out"))
+    own_only = os.environ.get("SEED_OWN_ONLY") == "1"
     for chk in RELATED.get(meta["property"], [meta["property"]]):
+        if own_only and chk != meta["property"]:
+            # neighbour checks: keep the result of the previous evaluation (marked), only the own property's check is re-run
+            prev = (meta.get("check_results") or {}).get(chk)
+            if isinstance(prev, dict) and "rc" in prev:
+                prev = dict(prev, reused_from_previous_evaluation=True)
+                results[chk] = prev
+                if prev["rc"] == 1:
+                    caught_by.append(chk)
+            continue
         t0 = time.time()
         r = sh("cd %s && ./check %s --tier quick" % (VERIF, chk), env=env)
         lines = [l for l in r.stdout.splitlines() if l.startswith(("VIOLATION", "INCONCLUSIVE", "KNOWN-FINDING", "check "))]
